@@ -508,6 +508,56 @@ def _png_writer_old(ctx, res):
 
 
 def rule_png_memory(ctx, res, sizes):
+    """evaluated first (absint/cx.py with the PNG library, the pixel codec
+    and the compressor replaced by stand-ins); the shape-based extraction only
+    when the evaluation cannot follow the code"""
+    from . import cxcodecs as XC
+    P = 'pico8.game.formatter.p8png:P8PNGFormatter'
+    done = set()
+    try:
+        pl = XC.evaluate_png_plumbing(ctx)
+    except AnalysisError:
+        pl = None
+    if pl is not None and not isinstance(pl.writer, AnalysisError):
+        d = pl.writer_diff()
+        res.check(d is None, 'R-C16-png', P + '.to_file',
+                  'image memory order gfx,map,gff,music,sfx,code,version',
+                  'to_file evaluated on symbolic regions: {} bytes laid out '
+                  'as the format says'.format(ref.VERSION_OFFSET + 1),
+                  'the image memory is not laid out per the format: '
+                  '{}'.format(d), ctx.model.func(P + '.to_file').loc,
+                  semantic=True)
+        done.add('writer')
+    if pl is not None and not isinstance(pl.loaded, AnalysisError):
+        try:
+            got = pl.game_regions()
+            want = {n: (c.split(':')[-1], a, b) for (n, a, b) in
+                    ref.MEMORY_MAP for c in [XC.SECTIONS[n]]}
+            want['version'] = ('byte', ref.VERSION_OFFSET, None)
+            cs = pl.code_slice()
+            bad = sorted((k, got.get(k), want[k]) for k in want
+                         if got.get(k) != want[k])
+            if cs is None or cs[:2] != tuple(ref.CODE_REGION):
+                bad.append(('code', cs, tuple(ref.CODE_REGION)))
+            res.check(not bad, 'R-C16-png', P + '.from_file',
+                      'reader slices = reference memory map, each slice '
+                      'feeds the section class of its region',
+                      'from_file evaluated on symbolic image memory: {}'
+                      .format(sorted(got)),
+                      'the loaded game takes {} (format: {})'.format(
+                          [(k, g) for (k, g, _w) in bad],
+                          [(k, w) for (k, _g, w) in bad]),
+                      ctx.model.func(P + '.from_file').loc, semantic=True)
+            done.add('reader')
+        except AnalysisError:
+            pass
+    for (n, a, b) in ref.MEMORY_MAP:
+        res.check(sizes.get(n) == b - a, 'R-C16-png',
+                  'pico8.game.formatter.p8png:P8PNGFormatter.to_file',
+                  'region {} contributes {} bytes'.format(n, b - a), '',
+                  'region {} has {} bytes'.format(n, sizes.get(n)))
+    if done == {'writer', 'reader'}:
+        return
     m = codecs.png_memory_order(ctx)
     want_order = [n for (n, _a, _b) in ref.MEMORY_MAP] + ['code', 'version']
     res.check(m['order'] == want_order, 'R-C16-png', m['writer'].qual,
@@ -533,11 +583,6 @@ def rule_png_memory(ctx, res, sizes):
               'pico8.game.formatter.p8png:P8PNGFormatter.from_file',
               'each slice feeds the section class of its region', '',
               'slices are consumed as {}'.format(m['consumers']))
-    for (n, a, b) in ref.MEMORY_MAP:
-        res.check(sizes.get(n) == b - a, 'R-C16-png',
-                  'pico8.game.formatter.p8png:P8PNGFormatter.to_file',
-                  'region {} contributes {} bytes'.format(n, b - a), '',
-                  'region {} has {} bytes'.format(n, sizes.get(n)))
 
 
 def run(ctx, res):
@@ -565,4 +610,4 @@ def run(ctx, res):
     from .c05 import rule_format
     rule_format(ctx, res, rule_id='R-C16-stream')
     res.require_min('R-C16-sfx', 10)
-    res.require_min('R-C16-png', 8)
+    res.require_min('R-C16-png', 7)
